@@ -152,6 +152,8 @@ class Conv:
 
     # ---- dict -> value
     def scalar_in(self, ty, v):
+        if z3.is_expr(v) or isinstance(v, (FV, RString)):
+            return v          # already an interpreter value (symbolic leaf)
         if isinstance(ty, tuple):
             return int(v)
         if ty in ('double', 'float'):
